@@ -29,6 +29,7 @@ pub struct Case {
     pub payload_buf_sizes: Vec<u32>,
 }
 
+#[derive(Clone, Copy)]
 pub struct C06;
 
 impl Prop for C06 {
